@@ -375,6 +375,18 @@ def _block_views(chk: Check) -> None:
         chk.ob("R19.4", "ByteBlock.contains_offset:half-open-range", ok, f.loc(),
                "contains_offset must be true exactly when offset <= x < offset + size (the range the "
                "contents slice covers: lower bound inclusive, upper exclusive); it is true when %s" % got, 3)
+    # the range members are the ones ByteBlock defines: a subclass that redefines one of them can
+    # disagree with the range the others describe
+    for sub_ in chk.repo.subclasses(bb):
+        for nm_ in ("contains_offset", "contains_address", "address", "contents", "size", "offset"):
+            redefined = nm_ in sub_.methods or nm_ in sub_.props or nm_ in getattr(sub_, "class_assigns", {})
+            if redefined:
+                where = sub_.methods.get(nm_) or (sub_.props[nm_].getter if nm_ in sub_.props else None)
+                chk.ob("R19.4", "%s.%s:not-redefined" % (sub_.qualname, nm_), False,
+                       where.loc() if where is not None else sub_.loc(),
+                       "%s redefines %s: address, contents, contains_offset and contains_address must "
+                       "describe one range [offset, offset + size), which only ByteBlock's own "
+                       "definitions are shown to do" % (sub_.qualname, nm_), 2)
     # contains_address
     f = bb.methods.get("contains_address")
     if f is None:
